@@ -110,7 +110,9 @@ pub enum TimerSpec {
     /// set_deadline(t0 + new_ms) + LoopHandle::update (both signed, -40..=40; <= 0: in the past):
     /// only the new deadline is armed
     /// `from`: 0 = as described; 1 = the timer starts without any deadline (Timer::from_duration(Duration::MAX), old_ms
-    /// unused); 2 = armed for t0 + old_ms, pushed to "never" by set_duration(Duration::MAX) + update, then re-armed
+    /// unused); 2 = armed for t0 + old_ms, pushed to "never" by set_duration(Duration::MAX) + update, then re-armed;
+    /// 3 = set_deadline(t0 + new_ms) WITHOUT update: "it needs to be re-registered for this change to take effect", so
+    /// the arming in force stays t0 + old_ms and that is when it fires
     Rearmed {
         old_ms: i8,
         new_ms: i8,
@@ -221,6 +223,7 @@ impl TimerSpec {
             TimerSpec::Expired { ago_ms } => Some(-(ago_ms as i64)),
             TimerSpec::Equal => t,
             TimerSpec::Later { ms } => t.map(|t| t + ms as i64),
+            TimerSpec::Rearmed { old_ms, from: 3, .. } => Some(old_ms as i64),
             TimerSpec::Rearmed { new_ms, .. } => Some(new_ms as i64),
             TimerSpec::Periodic { ago_ms, .. } => Some(-(ago_ms as i64)),
             TimerSpec::Far | TimerSpec::Never | TimerSpec::Removed { .. } | TimerSpec::RemovedOverdue { .. } | TimerSpec::Disabled { .. } => None,
@@ -298,7 +301,7 @@ pub fn normalise(c: &Case) -> Case {
             TimerSpec::Removed { ms } => TimerSpec::Removed { ms: ms.clamp(1, 40) },
             TimerSpec::RemovedOverdue { ago_ms } => TimerSpec::RemovedOverdue { ago_ms: ago_ms.min(40) },
             TimerSpec::Disabled { ms } => TimerSpec::Disabled { ms: ms.clamp(-40, 40) },
-            TimerSpec::Rearmed { old_ms, new_ms, from } => TimerSpec::Rearmed { old_ms: if from == 1 { 0 } else { old_ms.clamp(-40, 40) }, new_ms: new_ms.clamp(-40, 40), from: from.min(2) },
+            TimerSpec::Rearmed { old_ms, new_ms, from } => TimerSpec::Rearmed { old_ms: if from == 1 { 0 } else { old_ms.clamp(-40, 40) }, new_ms: new_ms.clamp(-40, 40), from: from.min(3) },
             TimerSpec::Periodic { ago_ms, period_ms, self_remove } => TimerSpec::Periodic { ago_ms: ago_ms.min(40), period_ms: period_ms.clamp(5, 40), self_remove },
             o => o,
         };
@@ -360,7 +363,7 @@ fn timer_strategy() -> impl Strategy<Value = TimerSpec> {
         2 => (1u8..=40).prop_map(|ms| TimerSpec::Removed { ms }),
         2 => (0u8..=40).prop_map(|ago_ms| TimerSpec::RemovedOverdue { ago_ms }),
         2 => (-40i8..=40).prop_map(|ms| TimerSpec::Disabled { ms }),
-        4 => (-40i8..=40, -40i8..=40, prop_oneof![3 => Just(0u8), 1 => Just(1u8), 1 => Just(2u8)]).prop_map(|(old_ms, new_ms, from)| TimerSpec::Rearmed { old_ms, new_ms, from }),
+        4 => (-40i8..=40, -40i8..=40, prop_oneof![3 => Just(0u8), 1 => Just(1u8), 1 => Just(2u8), 2 => Just(3u8)]).prop_map(|(old_ms, new_ms, from)| TimerSpec::Rearmed { old_ms, new_ms, from }),
         3 => (0u8..=40, 5u8..=40, prop::bool::weighted(0.35)).prop_map(|(ago_ms, period_ms, self_remove)| TimerSpec::Periodic { ago_ms, period_ms, self_remove }),
     ];
     prop_oneof![15 => armed, 13 => history]
@@ -990,10 +993,10 @@ fn run_once(c: &Case) -> Obs {
                 deadlines.push(None);
                 keep.push(Box::new(disp));
             }
-            TimerSpec::Rearmed { new_ms, from, .. } => {
+            TimerSpec::Rearmed { old_ms, new_ms, from, .. } => {
                 let nd = signed(new_ms);
                 to_rearm.push((tok, disp, nd, from));
-                deadlines.push(Some(nd));
+                deadlines.push(Some(if from == 3 { signed(old_ms) } else { nd }));
             }
             _ => deadlines.push(deadline),
         }
@@ -1011,6 +1014,10 @@ fn run_once(c: &Case) -> Obs {
             h.update(&tok).expect("update timer");
         }
         disp.as_source_mut().set_deadline(nd);
+        if from == 3 {
+            // no update: the old arming stays in force (the Dispatcher handle keeps the source reachable)
+            continue;
+        }
         h.update(&tok).expect("update timer");
     }
 
@@ -1159,6 +1166,13 @@ fn judge(c: &Case, o: &Obs) -> Judgement {
             TimerSpec::Periodic { .. } => "timer:overdue_rearming_by_duration",
             TimerSpec::Disabled { ms } if ms <= 0 => "timer:disabled_overdue",
             TimerSpec::Disabled { .. } => "timer:disabled",
+            TimerSpec::Rearmed { from: 3, old_ms, new_ms } => {
+                if new_ms > old_ms {
+                    "timer:deadline_field_moved_later_without_update"
+                } else {
+                    "timer:deadline_field_moved_earlier_without_update"
+                }
+            }
             TimerSpec::Rearmed { from, new_ms, .. } if from != 0 => {
                 if new_ms <= 0 {
                     "timer:rearmed_from_no_deadline_to_past"
@@ -1695,7 +1709,7 @@ fn cross_product(include_long_waits: bool) -> Vec<Case> {
             Tmo::Ms(7) => 3,
             _ => 9,
         };
-        let relations: [Vec<TimerSpec>; 19] = [
+        let relations: [Vec<TimerSpec>; 21] = [
             vec![],
             vec![TimerSpec::Expired { ago_ms: 2 }],
             vec![TimerSpec::At { ms: earlier_ms }],
@@ -1716,6 +1730,9 @@ fn cross_product(include_long_waits: bool) -> Vec<Case> {
             // a timer without any deadline (created so / pushed there) that is given a near one by set_deadline + update
             vec![TimerSpec::Far, TimerSpec::Rearmed { old_ms: 0, new_ms: 8, from: 1 }],
             vec![TimerSpec::Rearmed { old_ms: 5, new_ms: 12, from: 2 }],
+            // the deadline field changed without update(): the arming in force is the old one
+            vec![TimerSpec::Far, TimerSpec::Rearmed { old_ms: 6, new_ms: 30, from: 3 }],
+            vec![TimerSpec::Rearmed { old_ms: 9, new_ms: 2, from: 3 }],
             // an overdue timer whose callback removes the timer and still asks for a re-arming
             vec![TimerSpec::Far, TimerSpec::Periodic { ago_ms: 2, period_ms: 6, self_remove: true }],
             // a one-shot and a repeating timer overdue in the same dispatch (either insertion order; the one-shot is the
